@@ -136,6 +136,7 @@ Proof.
   - (* clone *) destruct H as [Hl0 Hd]. destruct (Nat.eq_dec sid0 sid2) as [->|Hne].
     + rewrite lookup_put_same in Hl. inversion Hl; subst st0. pose proof (Hold _ _ Hl0). pose proof (Hmono (s_ch st)). lia.
     + rewrite lookup_put_other in Hl by assumption. eapply Hgen; [eassumption | reflexivity | reflexivity].
+  - (* async drop starts *) apply in_del_lookup in Hl. eapply Hgen; [eassumption | reflexivity | reflexivity].
   - apply in_del_lookup in Hl. eapply Hgen; [eassumption | reflexivity | reflexivity].
   - pose proof (rm_apply_frame _ _ _ _ H3) as (_ & Estr & _). rewrite Estr in Hl. apply in_del_lookup in Hl. eapply Hgen; [eassumption | reflexivity | reflexivity].
   - pose proof (rm_apply_frame _ _ _ _ H3) as (_ & Estr & _). rewrite Estr in Hl. eapply Hgen; [eassumption | reflexivity | reflexivity].
@@ -298,7 +299,9 @@ Proof.
       rewrite cursor_clone. rewrite <- Ec. now rewrite Hp.
   - (* set capacity *) tsimp. destruct H as [Hl0 Hd]. destruct (Istr _ _ Hl0) as (Hlt & _). apply Hkeep; try assumption; [tauto | | apply window_eq; reflexivity].
     eapply (unread_upd s _ (s_ch st) (grow n (chan_at s (s_ch st)))); [reflexivity | assumption|]. intros Ec. split; reflexivity.
-  - apply Hkeep; try assumption; try reflexivity; tauto.
+  - (* async drop starts: as drop *) tsimp. rewrite streams_bury in Hl. destruct (Nat.eq_dec sid0 sid) as [->|Hne]; [now rewrite lookup_del_same in Hl|]. rewrite lookup_del_other in Hl by assumption.
+    destruct H as [Hl0 Hd]. destruct (Istr _ _ Hl0) as (Hlt & _). apply Hkeep; try assumption; [tauto | | apply window_eq; reflexivity].
+    autorewrite with chat. eapply (unread_upd s _ (s_ch st) (drop_rcv sid (chan_at s (s_ch st)))); [reflexivity | assumption|]. intros Ec. split; [now apply cursor_drop_other | reflexivity].
   - tsimp. rewrite streams_bury in Hl. destruct (Nat.eq_dec sid0 sid) as [->|Hne]; [now rewrite lookup_del_same in Hl|]. rewrite lookup_del_other in Hl by assumption.
     destruct H as [Hl0 Hd]. destruct (Istr _ _ Hl0) as (Hlt & _). apply Hkeep; try assumption; [tauto | | apply window_eq; reflexivity].
     autorewrite with chat. eapply (unread_upd s _ (s_ch st) (drop_rcv sid (chan_at s (s_ch st)))); [reflexivity | assumption|]. intros Ec. split; [now apply cursor_drop_other | reflexivity].
